@@ -293,6 +293,7 @@ func checkC04(c *Ctx) {
 		c04Escaper(c, p, m, mr)
 		c04Tokens(c, p, m, mr)
 		valueFidelity(c, p, m, mr, "R04.8")
+		escaperNoLoss(c, p, "R04.8")
 		c04Brackets(c, p, m, mr)
 		newlineRule(c, p, mr, "R04.5", map[string]string{"PrintCtx.End": "the record terminator of End(true)", "PrintCtx.EndArray": "EndArray(newline) for user marshallers", "Entry.printImpl": "blank-line shortcut"})
 		fieldOrder(c, p, m, jsonMode, "R04.6", []string{"Begin", "printTimestamp", "printLoggerName", "printSeverity", "printMsg", "serializeAttrs", "printPC", "printRestLinesOfMsg", "End", "Bytes", "printOut"}, map[string]bool{"printPC": true, "printRestLinesOfMsg": true})
